@@ -1,4 +1,4 @@
-"""C20 -- completion proposals (clauses R20.1-R20.10)."""
+"""C20 -- completion proposals (clauses R20.1-R20.11)."""
 from __future__ import annotations
 
 import ast
@@ -328,3 +328,9 @@ def check(ctx, res) -> None:
             "an offset is shifted by the length changes of the lines strictly before its own line" if ok else
             f"an offset is shifted by `{ast.unparse(slices[0])}`: not exactly the lines before the offset's own line (0-based index = number of {sep!r} before it)",
             function=to.qualname)
+
+    # ---- R20.11 (=R01.4) go-to-definition on a word preceded by ',' or '(' and followed by '=': a call keyword is answered
+    # in the keyword branch, the last target of a tuple assignment still reaches the ordinary name evaluation
+    from .c01 import call_keyword_rule
+
+    call_keyword_rule(ctx, res, "R20.11")
